@@ -215,4 +215,11 @@ def r4_no_inplace_on_memoised(ctx):
     ctx.note(f"memoised value producers: {sorted(memo)}; {n} use sites in models")
 
 
-RULES = [r4_no_inplace_on_memoised, r1_linear_in_time_step, r2_additive_deposit, r3_clock_and_retention]
+def r5_expectation_conversion_linear(ctx):
+    """Expectation-value photo-conversion is linear in the photons of each interval: apply_qe without sampling returns exactly photons * qe (shared with C15.R4)."""
+    from props.C15 import apply_qe_laws
+
+    apply_qe_laws(ctx)
+
+
+RULES = [r5_expectation_conversion_linear, r4_no_inplace_on_memoised, r1_linear_in_time_step, r2_additive_deposit, r3_clock_and_retention]
